@@ -922,7 +922,12 @@ def gen_proxy_case(rng):
         r = rng.random()
         remote = None if r < 0.12 else {'dt': a if r < 0.4 else b, 'readonly': rng.random() < 0.4}
         params.append({'name': pname, 'export': rng.random() < 0.85, 'readonly': rng.random() < 0.5, 'dt': a, 'remote': remote})
-    return {'k': 'proxy', 'params': params}
+    commands = []
+    for cname in rng.sample(['stop', 'go', 'reset'], rng.choice([0, 1, 1, 2])):
+        a, b = gen_cmd_pair(rng)
+        r = rng.random()
+        commands.append({'name': cname, 'dt': a, 'remote': None if r < 0.15 else a if r < 0.45 else b})
+    return {'k': 'proxy', 'params': params, 'commands': commands}
 
 
 def eval_proxy(case):
@@ -941,16 +946,38 @@ def eval_proxy(case):
             remote[p['name']] = {'datatype': rdt, 'readonly': p['remote']['readonly']}
             bp['remote'] = {'dt': dicodec.erase(dicodec.dt_to_di(rdt)), 'readonly': p['remote']['readonly']}
         built.append(bp)
+    cmds, remotecmds, cbuilt = {}, {}, []
+    for c in case.get('commands', []):
+        cmds[c['name']] = SimpleNamespace(datatype=cmd_dt(c['dt']))
+        bc = dict(c, dt=norm_cmd(c['dt']))
+        if c['remote'] is not None:
+            rdt = get_datatype(jround(cmd_dt(c['remote']).export_datatype()), c['name'])
+            remotecmds[c['name']] = {'datatype': rdt}
+            bc['remote'] = {'arg': dicodec.erase(dicodec.dt_to_di(rdt.argument)) if rdt.argument is not None else None,
+                            'res': dicodec.erase(dicodec.dt_to_di(rdt.result)) if rdt.result is not None else None}
+        cbuilt.append(bc)
     log = _Log()
-    proxy = SimpleNamespace(module='m', log=log, parameters=params, commands={},
-                            _secnode=SimpleNamespace(modules={'m': {'parameters': remote, 'commands': {}}}))
-    ProxyModule._check_descriptive_data(proxy)   # pylint: disable=protected-access
+    proxy = SimpleNamespace(module='m', log=log, parameters=params, commands=cmds,
+                            _secnode=SimpleNamespace(modules={'m': {'parameters': remote, 'commands': remotecmds}}))
+    crashed = None
+    try:
+        ProxyModule._check_descriptive_data(proxy)   # pylint: disable=protected-access
+    except Exception as e:
+        crashed = type(e).__name__
     out = {p['name']: [] for p in case['params']}
+    cout = {c['name']: [] for c in case.get('commands', [])}
     for fmt, args in log.warnings:
-        kind = [k for text, k in PROXY_WARNINGS if text in fmt]
-        out[args[1]].append(kind[0] if kind else 'unknown:' + fmt)
+        if fmt.startswith('remote command'):
+            cout[args[1]].append('missing' if 'does not exist' in fmt else 'not-compatible' if 'is not compatible' in fmt else 'unknown:' + fmt)
+        else:
+            kind = [k for text, k in PROXY_WARNINGS if text in fmt]
+            out[args[1]].append(kind[0] if kind else 'unknown:' + fmt)
     order = [k for _, k in PROXY_WARNINGS]
-    return built, [[p['name'], sorted(out[p['name']], key=lambda k: order.index(k) if k in order else 9)] for p in case['params']]
+    impl = {'params': [[p['name'], sorted(out[p['name']], key=lambda k: order.index(k) if k in order else 9)] for p in case['params']],
+            'commands': [[c['name'], cout[c['name']]] for c in case.get('commands', [])]}
+    if crashed:
+        impl['crashed'] = crashed
+    return {'params': built, 'commands': cbuilt}, impl
 
 
 def eval_writable(case):
@@ -982,6 +1009,55 @@ def eval_writable(case):
     except Exception as e:
         return {'other': type(e).__name__}
     return 'ok'
+
+
+def gen_cmd_pair(rng):
+    """two commands: argument and result of the second derived from those of the first (or dropped / added)"""
+    def opt_tree():
+        if rng.random() < 0.25:
+            return None
+        a, _, _ = gen_pair(rng, 2)
+        return a
+    a = {'arg': opt_tree(), 'res': opt_tree()}
+
+    def rel(t):
+        r = rng.random()
+        if t is None:
+            return None if r < 0.8 else opt_tree()
+        if r < 0.1:
+            return None
+        if r < 0.35:
+            return t
+        return derive_c(rng, t, rng.choice(['wider', 'wider', 'equal', 'narrower', 'narrower', 'shifted', 'cross']))
+    return a, {'arg': rel(a['arg']), 'res': rel(a['res'])}
+
+
+def cmd_dt(c):
+    from frappy.datatypes import CommandType
+    return CommandType(dicodec.di_to_dt(c['arg']) if c['arg'] is not None else None,
+                       dicodec.di_to_dt(c['res']) if c['res'] is not None else None)
+
+
+def norm_cmd(c):
+    return {k: dicodec.erase(dicodec.dt_to_di(dicodec.di_to_dt(c[k]))) if c[k] is not None else None for k in ('arg', 'res')}
+
+
+def eval_cmd(case):
+    a, b = cmd_dt(case['a']), cmd_dt(case['b'])
+    out = _outcome(lambda: a.compatible(b))
+    verdict = 'pass' if out[0] == 'ok' else 'bad' if out[0] == 'bad' else {'other': out[1]}
+
+    def through(dt, ws):
+        res = []
+        for wj in ws:
+            v = dtcodec.json_to_py(wj)
+            res.append({'v': wj, 'acc': dt is not None and _outcome(lambda: dt.validate(v))[0] == 'ok'})
+        return res
+    return {'verdict': verdict, 'wa': through(b.argument, case['wa']), 'wr': through(a.result, case['wr'])}
+
+
+def show_cmd(c):
+    return 'CommandType(%s, %s)' % (show(c['arg']) if c['arg'] is not None else None, show(c['res']) if c['res'] is not None else None)
 
 
 def eval_compat(case):
@@ -1038,7 +1114,10 @@ def req_of(case):
         return {'p': 'C03', 'k': 'get', 'json': dtcodec.py_to_json(case['datainfo'])}, impl
     if k == 'proxy':
         built, impl = eval_proxy(case)
-        return {'p': 'C03', 'k': 'proxy', 'params': built}, impl
+        return {'p': 'C03', 'k': 'proxy', 'params': built['params'], 'commands': built['commands']}, impl
+    if k == 'cmdcompat':
+        impl = eval_cmd(case)
+        return {'p': 'C03', 'k': 'cmdcompat', 'a': case['a'], 'b': case['b'], 'impl': impl}, impl
     if k == 'writable':
         impl = eval_writable(case)
         return {'p': 'C03', 'k': 'writable', 'value': case['value'], 'target': case['target']}, impl
@@ -1100,6 +1179,10 @@ def disagreement(case, impl, ans):
         if m != impl:
             return {k: (m, impl)}
         return None
+    if k == 'cmdcompat':
+        if m != impl['verdict']:
+            return {'verdict': (m, impl['verdict'])}
+        return None
 
 
 def relax_optional(a, b):
@@ -1151,6 +1234,16 @@ def unlimit(a, b):
 
 
 def signature(clause, case, impl=None):
+    if case['k'] == 'cmdcompat':
+        if clause == 'sound' and impl is not None:
+            # attribution only: a refused argument / result that is one of the recorded findings of the pair it belongs to
+            a, b = case['a'], case['b']
+            for x, y, ws in ((a['arg'], b['arg'], impl['wa']), (b['res'], a['res'], impl['wr'])):
+                if x is not None and y is not None and any(not w['acc'] for w in ws):
+                    sig = signature('sound', {'k': 'compat', 'a': x, 'b': y}, {'witnesses': ws})
+                    if sig.count(':') > 2:
+                        return sig
+        return f'C03:{clause}:command->command'
     if case['k'] == 'compat':
         a, b = case['a'], case['b']
         if clause == 'sound' and impl is not None:
@@ -1206,6 +1299,10 @@ def show(tree):
 
 
 def describe(case, impl):
+    if case['k'] == 'cmdcompat':
+        bad = [repr(dtcodec.json_to_py(w['v'])) for w in impl['wa'] + impl['wr'] if not w['acc']][:3]
+        return (f"{show_cmd(case['a'])}.compatible({show_cmd(case['b'])}) -> {json.dumps(impl['verdict'])}; arguments of the first "
+                f"refused by the second / results of the second refused by the first: {bad}")
     if case['k'] == 'compat':
         a, b = show(case['a']), show(case['b'])
         bad = [repr(dtcodec.json_to_py(w['v'])) for w in impl['witnesses'] if not w['acc']][:3]
@@ -1222,6 +1319,8 @@ def describe(case, impl):
 
 def shrink(ctx, case, clause):
     """descend into the tree / pair while a smaller case fails the same clause"""
+    if case['k'] == 'cmdcompat':
+        return case
     for _ in range(8):
         smaller = None
         cands = []
@@ -1319,8 +1418,33 @@ def run(ctx):
               if dtcodec.encodable(v)]
         cases.append(({'k': 'compat', 'a': a, 'b': b, 'witnesses': ws, 'mode': mode}, 'pair:' + mode))
 
+    for i in range(ctx.budget(500, 8000)):
+        a, b = gen_cmd_pair(rng)
+        try:
+            a, b = norm_cmd(a), norm_cmd(b)
+        except Exception as e:
+            res.count('pair.refused:' + type(e).__name__)
+            continue
+        wa = [dtcodec.py_to_json(v) for v in gen_witnesses(rng, a['arg'], 6) + boundary_witnesses(a['arg'])[:4]
+              if dtcodec.encodable(v)] if a['arg'] is not None else []
+        wr = [dtcodec.py_to_json(v) for v in gen_witnesses(rng, b['res'], 6) + boundary_witnesses(b['res'])[:4]
+              if dtcodec.encodable(v)] if b['res'] is not None else []
+        cases.append(({'k': 'cmdcompat', 'a': a, 'b': b, 'wa': wa, 'wr': wr}, 'command'))
     for i in range(ctx.budget(400, 6000)):
-        cases.append((gen_proxy_case(rng), 'proxy'))
+        c = gen_proxy_case(rng)
+        try:
+            for p_ in c['params']:
+                dicodec.di_to_dt(p_['dt'])
+                if p_['remote'] is not None:
+                    dicodec.di_to_dt(p_['remote']['dt'])
+            for c_ in c['commands']:
+                norm_cmd(c_['dt'])
+                if c_['remote'] is not None:
+                    norm_cmd(c_['remote'])
+        except Exception as e:
+            res.count('pair.refused:' + type(e).__name__)
+            continue
+        cases.append((c, 'proxy'))
     for a, b in variant_pairs():
         # every derived class as `value` against the plain class as `target` and the other way round, nested and not
         cases.append(({'k': 'writable', 'value': b, 'target': a, 'mode': 'derived-class'}, 'writable:derived-class(systematic)'))
@@ -1388,8 +1512,18 @@ def run(ctx):
                 if len(res.samples) < 3 and c['tree']['t'] == 'struct' and len(json.dumps(c)) < 1500 and stream != 'corpus':
                     res.samples.append({'case': {'k': k, 'tree': c['tree']}, 'datainfo': impl['datainfo']})
             elif k == 'proxy':
-                for _, ws in impl:
+                for _, ws in impl['params']:
                     res.count('proxy.warnings=' + ('+'.join(ws) or 'none'))
+                for _, ws in impl['commands']:
+                    res.count('proxy.command-warnings=' + ('+'.join(ws) or 'none'))
+                res.nontriv(c)
+            elif k == 'cmdcompat':
+                res.traces += 1
+                v = impl['verdict'] if isinstance(impl['verdict'], str) else 'other'
+                res.count('command.verdict=' + v)
+                res.count('command.shape=' + ''.join('A' if x['arg'] is not None else '-' for x in (c['a'], c['b'])) +
+                          ''.join('R' if x['res'] is not None else '-' for x in (c['a'], c['b'])))
+                res.count('command.nested=' + str(ans['nested']).lower() + ',verdict=' + v)
                 res.nontriv(c)
             elif k == 'writable':
                 res.count('writable=' + (impl if isinstance(impl, str) else 'other'))
